@@ -156,7 +156,7 @@ def hostile_message(rng: random.Random, cid: bytes = b'x',
             b'multipart/digest; boundary=b',
             b'text/html; charset=utf-8; format=flowed']),
         lambda: b'Subject: ' + rng.choice([
-            b'Re: ' * rng.randint(1, 400) + b'x', b'=?utf-8?b?////?=',
+            b'Re: ' * rng.choice([1, 5, 400, 3000]) + b'x', b'=?utf-8?b?////?=',
             b'=?bogus?q?x?=', b'a\rb', b'\xe9\xe8 8bit', b'"q" \\ back',
             b'x' * 3000, b'', b' ', b'[list] fwd: re: x (fwd)',
             b'Re[2]: x', b'=?utf-8?q?=E2=82=AC?= euro']),
